@@ -299,7 +299,14 @@ def replay (prop : String) (t : Tree) (headers : Bool) (c0 : Cands) (ops : List 
       | _ =>
         let keyOf : Cands × String → String := fun x => x.2
         let good := dedupBy keyOf good
-        go (mergeCands (good.map (·.1))) ops' dumps' (k + 1) importsOnly (d :: acc)
+        -- Once the observed database violates C03 (the harness has reported it: a known finding or a violation), the
+        -- rest of the history is not compared: the model bounds Go's unbounded deletion loops by the height of the
+        -- header head, which is only justified while nothing is indexed above it.
+        let broken := prop == "C03" && (match parseDump d with
+          | some pd => (specC03 t headers pd).isSome
+          | none => false)
+        if broken then (joinWith ";" (d :: acc).reverse, true, none)
+        else go (mergeCands (good.map (·.1))) ops' dumps' (k + 1) importsOnly (d :: acc)
   go c0 ops dumps 0 true []
 
 /-- handler of one case line for property `prop` ("C02" | "C03") -/
